@@ -43,6 +43,90 @@ def _has_ret(body):
     return False
 
 
+def _ret_split(b):
+    """b: a Block that certainly ends in `return X` -> Block with the statements before it and X as its value; else None"""
+    if b.get("k") != "Block":
+        return {"k": "Block", "sp": b.get("sp"), "stmts": [], "expr": b.get("e")} if b.get("k") == "Ret" and b.get("e") is not None else \
+               ({"k": "Block", "sp": b.get("sp"), "stmts": []} if b.get("k") == "Ret" else None)
+    stmts = list(b.get("stmts", []))
+    last = b.get("expr")
+    if last is None and stmts:
+        last = stmts.pop()
+    if last is None or last.get("k") != "Ret":
+        return None
+    out = {"k": "Block", "sp": b.get("sp"), "stmts": stmts}
+    if last.get("e") is not None:
+        out["expr"] = last["e"]
+    if any(x.get("k") == "Ret" for st in stmts for x in walk(st, enter_closures=False)):
+        return None
+    return out
+
+
+def _elim_tail(e, ty):
+    """e in tail position of the function: `return X` there is X"""
+    k = e.get("k")
+    if k == "Ret":
+        return e.get("e") if e.get("e") is not None else {"k": "Block", "sp": e.get("sp"), "stmts": [], "ty": "()"}
+    if k == "Block":
+        return _elim_block(e, ty)
+    if k == "If":
+        n = dict(e)
+        n["then"] = _elim_tail(e["then"], ty)
+        if e.get("else") is not None:
+            n["else"] = _elim_tail(e["else"], ty)
+        return n
+    if k == "Match":
+        n = dict(e)
+        n["arms"] = [dict(a, body=_elim_tail(a["body"], ty)) for a in e["arms"]]
+        return n
+    return e
+
+
+def _elim_block(blk, ty):
+    """guard clauses (`let P = e else { return X };`, `if c { return X; }`) become the if / else they abbreviate"""
+    stmts = list(blk.get("stmts", []))
+    for i, st in enumerate(stmts):
+        rest = {"k": "Block", "sp": blk.get("sp"), "stmts": stmts[i + 1:], "ty": ty}
+        if blk.get("expr") is not None:
+            rest["expr"] = blk["expr"]
+        if st.get("k") == "Let" and st.get("else") is not None and st.get("init") is not None:
+            x = _ret_split(st["else"])
+            if x is None:
+                return blk
+            x["ty"] = ty
+            cond = {"k": "LetExpr", "sp": st.get("sp"), "pat": st["pat"], "init": st["init"], "ty": "bool"}
+            new_if = {"k": "If", "sp": st.get("sp"), "cond": cond, "then": _elim_block(rest, ty), "else": x, "ty": ty, "from_let_else": True}
+            out = dict(blk, stmts=stmts[:i], expr=new_if)
+            return out
+        if st.get("k") == "If" and st.get("else") is None and any(x.get("k") == "Ret" for x in walk(st["then"], enter_closures=False)):
+            x = _ret_split(st["then"])
+            if x is None:
+                return blk
+            x["ty"] = ty
+            new_if = {"k": "If", "sp": st.get("sp"), "cond": st["cond"], "then": x, "else": _elim_block(rest, ty), "ty": ty, "from_guard_clause": True}
+            return dict(blk, stmts=stmts[:i], expr=new_if)
+        if st.get("k") == "Ret":
+            out = dict(blk, stmts=stmts[:i])
+            out.pop("expr", None)
+            if st.get("e") is not None:
+                out["expr"] = st["e"]
+            return out
+    if blk.get("expr") is not None:
+        return dict(blk, stmts=stmts, expr=_elim_tail(blk["expr"], ty))
+    return blk
+
+
+def eliminate_early_returns(hb):
+    """a copy of the helper whose body has no `return`, or None when the returns are not of the guard-clause / tail kind"""
+    body = copy.deepcopy(hb["body"])
+    body = _elim_tail(body, hb.get("output"))
+    if _has_ret(body):
+        return None
+    out = dict(hb)
+    out["body"] = body
+    return out
+
+
 def _max_id(hb):
     m = 0
     for root in list(hb.get("params", [])) + [hb["body"]]:
@@ -434,6 +518,12 @@ def inline_new_helpers(facts, reference_functions):
                 continue
             callers = []
             hir_ok = not _has_ret(hb["body"])
+            hb_inl = hb
+            if not hir_ok:
+                # guard-clause returns are rewritten into the if / else they stand for; other early returns stay (see below)
+                alt = eliminate_early_returns(hb)
+                if alt is not None:
+                    hb_inl, hir_ok = alt, True
             # a helper with an early `return` cannot be inlined in the HIR view. It is still inlined in MIR (where `return` is a jump), its
             # blocks tagged `inlined_from`, and its own MIR body is kept, so that rules which pair a MIR site with the HIR of its function
             # (the panic-site inventory) analyse that code once, in the helper, with the HIR that matches it
@@ -446,7 +536,7 @@ def inline_new_helpers(facts, reference_functions):
                 if hir_ok:
                     for c in cs:
                         site[0] += 1
-                        blk = _inline_hir_call(b, c, hb, _max_id(b) + 1000, _tag(c.get("sp")))
+                        blk = _inline_hir_call(b, c, hb_inl, _max_id(b) + 1000, _tag(c.get("sp")))
                         if blk is not None:
                             _beta_reduce(blk, 0)
                             _replace_node(b["body"], c, blk)
